@@ -632,8 +632,8 @@ CaseOf(l) == [n |-> l.n, init |-> l.init, addr |-> l.addr, blocks |-> l.blocks, 
 (***************************************************************************)
 VARIABLES lay, phase, cur, mid, nopk, exc,
           added,   \* id of the block a rewrite gave an alignment between split and join (0: none)
-          priv     \* the alignment table handed to split / join is a private empty dict, not the
-                   \* module's table (prepare_for_rewriting: ELF module without an alignment table)
+          priv     \* prepare_for_rewriting chose a private empty dict as the alignment table at split
+                   \* time (ELF module without an alignment table) instead of the module's table
 vars == <<lay, phase, cur, mid, nopk, exc, added, priv>>
 
 Init ==
@@ -692,8 +692,11 @@ AddAlignment(j, i, a) ==
   /\ phase' = "grown"
   /\ UNCHANGED <<lay, nopk, exc, priv>>
 
-\* what join_byte_intervals is given as `alignment`
-Seen(st) == IF priv THEN [st EXCEPT !.al = <<>>] ELSE st
+\* what join_byte_intervals is given as `alignment`: after the rewrite
+\* prepare_for_rewriting resolves the module's table again, so the private dict
+\* survives only when the rewrite did not create a table (FX-C10-2; before that
+\* fix the private dict was kept and an added requirement was ignored)
+Seen(st) == IF priv /\ added = 0 THEN [st EXCEPT !.al = <<>>] ELSE st
 
 Join(kind) ==
   /\ phase \in {"split", "grown"}
@@ -727,15 +730,14 @@ InvJoin ==
     /\ exc \in {"", "PaddingError"}
     /\ PaddingLegal(Seen(mid), cur, cur.ivs[1].id, exc, nop, DefaultTables)
     \* a requirement added by the rewrite holds after the join when it is the only one
-    \* of its interval - unless the join was handed the private dict (KF-C10-2: the
-    \* entry in the module's table is then ignored)
-    /\ (exc = "" /\ added # 0 /\ ~priv
+    \* of its interval, in every table state (module table or private dict at split time)
+    /\ (exc = "" /\ added # 0
            /\ \E j \in DOMAIN mid.ivs : AlignedBlocks(mid, mid.ivs[j]) = {added})
          => (Base(cur.ivs[1]) + PosOf(cur.ivs[1], added)) % AlignOf(mid, added) = 0
     /\ (phase = "joined" /\ Invertible(Pre)) => (exc = "" /\ C10_JoinInverts(Pre, cur))
     \* requirements that held before (those of the layout and the one the rewrite added)
     /\ LET PreA == [Pre EXCEPT !.al = mid.al]
-       IN  (exc = "" /\ ~priv /\ AlignConsistent(PreA)) => (C10_AlignmentHolds(PreA, cur) \/ KF_C10_1(PreA, cur))
+       IN  (exc = "" /\ AlignConsistent(PreA)) => (C10_AlignmentHolds(PreA, cur) \/ KF_C10_1(PreA, cur))
 
 EmitCase == (Emit /\ phase = "init") => PrintT("CASE " \o ToJson(CaseOf(lay)))
 
